@@ -19,6 +19,7 @@ import (
 // Proc is a real `versitygw … posix` subprocess.
 type Proc struct {
 	Cmd    *exec.Cmd
+	Health string // this process' own health path (a nonce): another gateway that happens to own the port does not answer it
 	Addr   string
 	Cfg    Config
 	mu     sync.Mutex
@@ -64,6 +65,8 @@ func Binary() (string, error) {
 	return binPath, binErr
 }
 
+var procCounter int
+
 func freePort() (int, error) {
 	l, err := net.Listen("tcp", "127.0.0.1:0")
 	if err != nil {
@@ -74,8 +77,8 @@ func freePort() (int, error) {
 }
 
 // Args renders the command line (without the binary) for the posix backend.
-func (c *Config) Args(port int) []string {
-	a := []string{"--port", fmt.Sprintf("127.0.0.1:%d", port), "--health", HealthPath, "-q", "--region", c.Region}
+func (c *Config) Args(port int, health string) []string {
+	a := []string{"--port", fmt.Sprintf("127.0.0.1:%d", port), "--health", health, "-q", "--region", c.Region}
 	if !c.NoIAM {
 		a = append(a, "--iam-dir", c.SB.IAM)
 	}
@@ -124,9 +127,11 @@ func StartProc(c Config) (*Proc, error) {
 		if err != nil {
 			return nil, err
 		}
-		p := &Proc{Cfg: c, Addr: fmt.Sprintf("127.0.0.1:%d", port), exited: make(chan struct{})}
+		procCounter++
+		p := &Proc{Cfg: c, Addr: fmt.Sprintf("127.0.0.1:%d", port), exited: make(chan struct{}),
+			Health: fmt.Sprintf("%s-%d-%d", HealthPath, os.Getpid(), procCounter)}
 		p.T = &s3c.TCP{Addr: p.Addr}
-		cmd := exec.Command(bin, c.Args(port)...)
+		cmd := exec.Command(bin, c.Args(port, p.Health)...)
 		cmd.Dir = c.SB.Area
 		cmd.Env = []string{"PATH=/usr/bin:/bin", "HOME=" + c.SB.Area,
 			"ROOT_ACCESS_KEY=" + c.Root.Access, "ROOT_SECRET_KEY=" + c.Root.Secret}
@@ -175,7 +180,7 @@ func (p *Proc) Healthy() bool {
 	}
 	defer c.Close()
 	c.SetDeadline(time.Now().Add(3 * time.Second))
-	fmt.Fprintf(c, "GET %s HTTP/1.1\r\nHost: x\r\n\r\n", HealthPath)
+	fmt.Fprintf(c, "GET %s HTTP/1.1\r\nHost: x\r\n\r\n", p.Health)
 	buf := make([]byte, 64)
 	n, _ := c.Read(buf)
 	return strings.HasPrefix(string(buf[:n]), "HTTP/1.1 200")
